@@ -23,8 +23,12 @@ RULE = ("BMS texts over the five layouts: header (title/artist/level/#BPM/#LNOBJ
         "0-6 measures, per lane 0-6 objects on divisions 1-192 split over 1-3 lines per (measure, channel), LNOBJ "
         "pairs, channel-03/08 tempo objects on measure lines / grid-compatible / grid-incompatible positions, a "
         "measure-0 override, ignored channels, odd/empty data, malformed lines, error cases; lines in file order or "
-        "shuffled; non-trivial = a tempo object followed by a note, or a long note, or shuffled lines")
+        "shuffled; 30 % of the cases go through the FILE entry point BMSMap.read_file on a temporary shift_jis file (LF / CRLF / "
+        "bare CR line ends, trailing blank lines), 20 % read one or two other texts first in the same process (state kept "
+        "between calls); non-trivial = a tempo object followed by a note, or a long note, or shuffled lines")
 ASSUMPTIONS = [
+    "read_file: Python's codecs line splitting (str.splitlines) is modelled by the harness, not verified; the model is "
+    "given the lines the file splits into",
     "shift_jis codec, str.strip and float()/int() text parsing are modelled on plain decimal / hex text only",
     "channel-02 lines (time signatures) are outside the property's quantifier and are not generated",
 ]
@@ -115,7 +119,7 @@ def lines_for(rng, measure, channel, objs, ordered):
     return out
 
 
-def gen(rng, tier, i):
+def gen_text(rng, tier, i):
     layout = rng.choice(list(LAYOUTS))
     chans = LAYOUTS[layout]
     M = rng.choice([1, 2, 2, 3, 4, 6])
@@ -244,6 +248,24 @@ def gen(rng, tier, i):
     return dict(claim="read", layout=layout, lines=lines)
 
 
+def gen(rng, tier, i):
+    case = gen_text(rng, tier, i)
+    if rng.random() < 0.3:
+        # through the FILE entry point: the lines must survive a trip through the file (no line ends inside a line)
+        case["lines"] = [l.strip("\r\n") for l in case["lines"]]
+        case["via"] = dict(mode="file", eol=rng.choice(["lf", "crlf", "crlf", "cr"]), trail=rng.random() < 0.3)
+    if rng.random() < 0.2:
+        # one or two other texts read first in the same process
+        case["before"] = []
+        for k in range(rng.choice([1, 1, 2])):
+            b = gen_text(rng, tier, i)
+            bb = dict(layout=b["layout"], lines=[l.strip("\r\n") for l in b["lines"]])
+            if rng.random() < 0.4:
+                bb["via"] = dict(mode="file", eol=rng.choice(["lf", "crlf", "cr"]), trail=False)
+            case["before"].append(bb)
+    return case
+
+
 def corpus():
     c = []
     # D05: tail line before head line
@@ -271,6 +293,14 @@ def corpus():
     c.append(dict(claim="read", layout="BMS", lines=["#TITLE only title", "#BPM 150", "#00111:0101"]))
     c.append(dict(claim="read", layout="PMS", lines=["#BPM 120", "#BPM 150", "#00111:01", "#00211:01"]))
     c.append(dict(claim="read", layout="BME", lines=["#BPM 120", "#LNOBJ ZZ", "#00111:01ZZ02ZZ", "#00112:ZZ"]))
+    # the FILE entry point: LF / CRLF / bare CR line ends, trailing blanks, a shift_jis header, another layout
+    txt = ["#TITLE テスト ｱｲ", "#ARTIST 作者", "#BPM 150", "#LNOBJ ZZ", "#WAV01 k.wav", "#BPM01 75", "#00113:0100ZZ00", "#00108:0001",
+           "#00222:01010101"]
+    for eol in ("lf", "crlf", "cr"):
+        c.append(dict(claim="read", layout="PMS", lines=txt, via=dict(mode="file", eol=eol, trail=(eol != "lf"))))
+    # state kept between reads: a table of the first text must not be visible to the second
+    c.append(dict(claim="read", layout="BME", lines=["#BPM 120", "#00108:01", "#00111:0A"],
+                  before=[dict(layout="BME", lines=["#BPM 100", "#BPM01 200", "#WAV0A k.wav", "#LNOBJ 0A", "#00108:01", "#00111:0A"])]))
     return c
 
 
@@ -282,6 +312,15 @@ def valid(case):
     try:
         if case.get("claim") != "read" or case.get("layout") not in LAYOUTS:
             return False
+        via = case.get("via")
+        if via is not None:
+            if not isinstance(via, dict) or via.get("mode") not in ("file", "lines", None) or via.get("eol", "lf") not in EOLS:
+                return False
+            if via.get("mode") == "file" and any(("\n" in l or "\r" in l) for l in case["lines"]):
+                return False
+        for b in case.get("before") or []:
+            if not valid(dict(claim="read", layout=b.get("layout"), lines=b.get("lines"), via=b.get("via"))):
+                return False
         for l in case["lines"]:
             if not isinstance(l, str):
                 return False
@@ -341,6 +380,47 @@ def hx(b):
     return bytes(b).hex()
 
 
+EOLS = {"lf": "\n", "crlf": "\r\n", "cr": "\r"}
+POISON = ["#TITLE earlier text", "#ARTIST earlier", "#PLAYLEVEL 9", "#BPM 99", "#LNOBJ QQ", "#BPMQ1 333", "#WAVQ2 earlier.wav",
+          "#GENRE earlier", "#00008:Q1", "#00108:00Q1", "#00116:Q2QQ", "#00211:Q2"]
+
+
+def file_bytes(lines, eol, trail):
+    """the bytes of a BMS file holding `lines` (shift_jis, no BOM), line ends `eol`, optionally trailing blanks"""
+    e = EOLS[eol]
+    txt = e.join(lines)
+    if trail:
+        txt += e + "  " + e + e
+    return txt.encode("shift_jis")
+
+
+def lines_seen(case):
+    """the lines the reader is handed: the list itself, or what `codecs` line splitting makes of the file
+    (Python's `str.splitlines`: modelled, not verified)"""
+    via = case.get("via") or {}
+    if via.get("mode") == "file":
+        return file_bytes(case["lines"], via.get("eol", "lf"), via.get("trail", False)).decode("shift_jis").splitlines()
+    return list(case["lines"])
+
+
+def read_one(BMSMap, BMSChannel, lines, layout, via):
+    import os
+    import tempfile
+    cfg = getattr(BMSChannel, layout)
+    if (via or {}).get("mode") == "file":
+        fd, path = tempfile.mkstemp(prefix="c04-", suffix=".bms")
+        try:
+            with os.fdopen(fd, "wb") as f:
+                f.write(file_bytes(lines, via.get("eol", "lf"), via.get("trail", False)))
+            return BMSMap.read_file(path, cfg)
+        finally:
+            try:
+                os.remove(path)
+            except OSError:
+                pass
+    return BMSMap.read(list(lines), cfg)
+
+
 def run_impl(case):
     import logging
     import warnings
@@ -349,7 +429,18 @@ def run_impl(case):
     try:
         with warnings.catch_warnings():
             warnings.simplefilter("ignore")
-            m = BMSMap.read(list(case["lines"]), getattr(BMSChannel, case["layout"]))
+            # a fixed text is read first in EVERY run (so that state leaking between reads shows in a replay as well),
+            # then the case's own earlier texts
+            try:
+                read_one(BMSMap, BMSChannel, POISON, "BME", None)
+            except Exception:
+                pass
+            for b in case.get("before") or []:
+                try:
+                    read_one(BMSMap, BMSChannel, b["lines"], b["layout"], b.get("via"))
+                except Exception:
+                    pass
+            m = read_one(BMSMap, BMSChannel, case["lines"], case["layout"], case.get("via"))
             out = dict(
                 title=hx(m.title), artist=hx(m.artist), version=hx(m.version), ln_end=hx(m.ln_end_channel),
                 exbpms={hx(k): Fr(float(v)) for k, v in m.exbpms.items()},
@@ -455,7 +546,7 @@ def header_equal(impl, h):
 
 
 def run(case, drv):
-    lines_hex = [l.encode("shift_jis").hex() for l in case["lines"]]
+    lines_hex = [l.encode("shift_jis").hex() for l in lines_seen(case)]
     layout = case["layout"]
     impl = run_impl(case)
     m = drv.call("c04.read", layout=layout, lines=lines_hex)
@@ -463,6 +554,10 @@ def run(case, drv):
     flags = den["flags"]
     d = den["den"]
     tags = [layout]
+    if (case.get("via") or {}).get("mode") == "file":
+        tags.append("via:read_file:" + (case["via"].get("eol") or "lf"))
+    if case.get("before"):
+        tags.append("after-other-reads")
     detail = {}
     agree, ok, boundary, maxdev = True, True, False, 0.0
     if "err" in m and m["err"] == "unsupported":
